@@ -194,6 +194,33 @@ def run(ctx):
                     if rs != rb:
                         ctx.counterexample('byte %#x against %r: bytes=%r, Latin-1 str=%r' % (b, f_, rb, rs),
                                            {'byte': b, 'pattern': f_, 'bytes': rb, 'str': rs})
+    # mixing str and bytes raises TypeError - for every shape of pattern set (inclusions, exclusions alone, NEGATEALL, exclude=,
+    # lists), every matching entry point, with and without REALPATH, and for the directory walker object
+    mixed_calls = []
+    shapes = [('one pattern', lambda b: (b('a*'), 0, {})), ('exclusion alone', lambda b: (b('!b'), Fm.NEGATE, {})),
+              ('exclusion list', lambda b: ([b('!b'), b('!c')], Fm.NEGATE, {})), ('NEGATEALL', lambda b: (b('!b'), Fm.NEGATE | Fm.NEGATEALL, {})),
+              ('exclude= only', lambda b: ([], 0, {'exclude': b('b')})), ('pattern + exclude=', lambda b: (b('*'), 0, {'exclude': b('b')})),
+              ('SPLIT exclusion', lambda b: (b('!b|!c'), Fm.NEGATE | Fm.SPLIT, {}))]
+    enc_s, enc_b = (lambda x: x), (lambda x: x.encode())
+    for sh_name, mk in shapes:
+        for nm_t, pat_t, label in ((enc_b, enc_s, 'bytes name, str patterns'), (enc_s, enc_b, 'str name, bytes patterns')):
+            pt_, fl_, kw_ = mk(pat_t)
+            nm_ = nm_t('a')
+            mixed_calls += [
+                ('fnmatch (%s; %s)' % (sh_name, label), lambda pt_=pt_, fl_=fl_, kw_=kw_, nm_=nm_: Fm.fnmatch(nm_, pt_, flags=fl_, **kw_)),
+                ('fnmatch.filter (%s; %s)' % (sh_name, label), lambda pt_=pt_, fl_=fl_, kw_=kw_, nm_=nm_: Fm.filter([nm_], pt_, flags=fl_, **kw_)),
+                ('globmatch (%s; %s)' % (sh_name, label), lambda pt_=pt_, fl_=fl_, kw_=kw_, nm_=nm_: Gm.globmatch(nm_, pt_, flags=fl_, **kw_)),
+                ('globfilter (%s; %s)' % (sh_name, label), lambda pt_=pt_, fl_=fl_, kw_=kw_, nm_=nm_: Gm.globfilter([nm_], pt_, flags=fl_, **kw_)),
+                ('glob.compile().match (%s; %s)' % (sh_name, label), lambda pt_=pt_, fl_=fl_, kw_=kw_, nm_=nm_: Gm.compile(pt_, flags=fl_, **kw_).match(nm_)),
+                ('fnmatch.compile().filter (%s; %s)' % (sh_name, label), lambda pt_=pt_, fl_=fl_, kw_=kw_, nm_=nm_: Fm.compile(pt_, flags=fl_, **kw_).filter([nm_])),
+            ]
+    mixed_calls = [c_ for c_ in mixed_calls if 'exclude= only' not in c_[0] or True]
+    from wcmatch import wcmatch as WMm
+    here_s, here_b = os.getcwd(), os.fsencode(os.getcwd())
+    mixed_calls += [('WcMatch(bytes root, str file pattern)', lambda: WMm.WcMatch(here_b, '*.txt').match()),
+                    ('WcMatch(str root, bytes file pattern)', lambda: WMm.WcMatch(here_s, b'*.txt').match()),
+                    ('WcMatch(str root, str file pattern, bytes exclude pattern)', lambda: WMm.WcMatch(here_s, '*.txt', b'd', flags=WMm.RECURSIVE).match()),
+                    ('WcMatch(bytes root, None, str exclude pattern)', lambda: WMm.WcMatch(here_b, None, 'd', flags=WMm.RECURSIVE).match())]
     # mixing str and bytes raises TypeError
     for what, thunk in [('fnmatch(str name, bytes pattern)', lambda: Fm.fnmatch('a', b'a')), ('fnmatch(bytes name, str pattern)', lambda: Fm.fnmatch(b'a', 'a')),
                         ('globmatch(str, bytes)', lambda: Gm.globmatch('a', b'a')), ('filter', lambda: Fm.filter([b'a'], 'a')),
@@ -206,7 +233,7 @@ def run(ctx):
                         ('globfilter REALPATH exclusion-only', lambda: Gm.globfilter([b'keep.txt'], b'!skip.log', flags=Gm.NEGATE | Gm.REALPATH, root_dir='.')),
                         ('compile().match REALPATH exclusion-only', lambda: Gm.compile(b'!skip.log', flags=Gm.NEGATE | Gm.REALPATH).match(b'keep.txt', root_dir='.')),
                         ('compile().match REALPATH NEGATEALL', lambda: Gm.compile(b'!skip.log', flags=Gm.NEGATE | Gm.NEGATEALL | Gm.REALPATH).match(b'keep.txt', root_dir='.')),
-                        ('compile().filter REALPATH', lambda: Gm.compile('*.txt', flags=Gm.REALPATH).filter(['keep.txt'], root_dir=b'.'))]:
+                        ('compile().filter REALPATH', lambda: Gm.compile('*.txt', flags=Gm.REALPATH).filter(['keep.txt'], root_dir=b'.'))] + mixed_calls:
         evals += 1
         try:
             r = thunk()
